@@ -347,7 +347,7 @@ namespace avel {
 
         #if defined(AVEL_AVX512VL) || defined(AVEL_AVX10_1)
         auto mask = b << N;
-        return mask2x64f{__mmask8((decay(m) & ~mask) | mask)};
+        return mask2x64f{__mmask8((decay(m) & ~(1u << N)) | mask)};
 
         #elif defined(AVEL_SSE2)
         // Rely on const folding
